@@ -21,7 +21,7 @@ m = {
  "hooks": {
   "guard": "verif (Go build tag)",
   "enable": "go1.26 test -c -tags verif [-race] -overlay <harness files as /repo/zzverif_*_test.go> /repo  (done by ./check on every run, from /repo's working tree)",
-  "baseline_off_cmd": "cd /repo && GOFLAGS=-mod=mod GOPROXY=off GOSUMDB=off go test -vet=off -count=1 -timeout 25m ./...",
+  "baseline_off_cmd": "cd /repo && GOPROXY=off go test -mod=mod -vet=off -count=1 -timeout 25m ./...",
   "source_commits": [c.split()[0] for c in hooks_commits],
   "add_only": True,
  },
